@@ -454,6 +454,16 @@ def execute(case):
         return d.evaluate({k: bind[k] for k in fs})
 
     check("free-symbols", free_restricted)
+    try:
+        constant = not d.free_symbols()
+    except Exception:
+        constant = False
+    if constant:
+        # a dimension without free symbols (symbols cancelled, or constant text) folds to its integer under ANY binding,
+        # the empty one included - at dimension and at shape level
+        classes.append("constant_dimension")
+        check("evaluate-empty-bindings", lambda: d.evaluate({}))
+        check("shape-evaluate-empty-bindings", lambda: ir.Shape([d, 3]).evaluate({})[0])
 
     def serde_rt():
         from onnx_ir import serde
